@@ -1295,7 +1295,9 @@ class WorkflowConductor(object):
             rerunnable_candidates = {
                 constants.TASK_STATE_ROUTE_FORMAT % (t["id"], str(t["route"])): (i, t)
                 for i, t in self.workflow_state.get_terminal_tasks()
-                if "status" in t and t["status"] in statuses.ABENDED_STATUSES
+                if "status" in t
+                and t["status"] in statuses.ABENDED_STATUSES
+                and t["id"] not in events.ENGINE_EVENT_MAP.keys()
             }
         # Otherwise if the list of tasks is provided, then filter the list of rerun candidates.
         else:
@@ -1307,6 +1309,11 @@ class WorkflowConductor(object):
                 for k, t in tasks.items()
                 if k in self._collapse_task_rerun_requests(tasks)
             }
+
+        # Throw exception if there is nothing to rerun, otherwise the workflow is resumed
+        # with no task to run and never completes.
+        if not rerunnable_candidates:
+            raise exc.InvalidTaskRerunRequest(list(tasks.values()))
 
         # Keep record of which task sequence(s) is being rerun in the workflow state.
         rerun_entry = [i for i, t in rerunnable_candidates.values()]
